@@ -20,11 +20,7 @@ EXTENDS TapeFormats, Json, IOUtils
 
 Cases == JsonDeserialize(IOEnv.CASES)
 
-RECURSIVE RunsFrom(_, _, _)
-RunsFrom(t0, runs, j) ==
-  IF j > Len(runs) THEN <<>>
-  ELSE LET d == runs[j][1]  c == runs[j][2] IN [k \in 1..c |-> t0 + (k * d)] \o RunsFrom(t0 + (c * d), runs, j + 1)
-RunsToEdges(first, runs) == <<first>> \o RunsFrom(first, runs, 1)
+RunsToEdges(first, runs) == Fold(LAMBDA acc, r : acc \o [k \in 1..r[2] |-> Last(acc) + (k * r[1])], <<first>>, runs)
 
 \* decl: the tape as the documents describe it; gen: the same tape as SkoolKit shapes it (equal signal)
 JudgeEdges(decl, gen, fe, gpol, edges, ranges, expect) ==
